@@ -7,7 +7,7 @@ LEVEL = 'model_checking'
 
 def run(rep: Report, tier: str, only=None) -> None:
 	thorough = tier == 'thorough'
-	t = 900 if thorough else 150
+	t = 900 if thorough else 300
 	bit_bound = 1 << 5 if thorough else 1 << 3
 	jobs: list[Job] = []
 	for op in ['+', '-', '*', '%']:
